@@ -559,7 +559,7 @@ func (r *rwRT) ruleOptEta() {
 			}
 			c.bad("OPT.ETA", construct, pos, "the eta-reduction callback can panic on this closure shape", tr...)
 		case sc.may:
-			if anyReplace && allReplace {
+			if anyReplace {
 				replaced++
 			}
 			c.ok("OPT.ETA", construct, pos, fmt.Sprintf("reduction is meaning-preserving here (reduced: %v)", anyReplace && allReplace))
